@@ -33,6 +33,12 @@ CHECKS = {
             "3.C11", "brute-force oracle; 6 and 171 classes re-derived by the oracle itself"),
     "C12": (EX, "E4", "bounded-exhaustive enumeration of DirectedHypergraph contents x every bound 2..6 x every degree filter; signature and the three reciprocities compared with their definitions in exact rational arithmetic; exact <= strong <= weak checked per size",
             "3.C12", "definitions as stated in the property"),
+    "C18": (MC, "E3+E4", "stateless exhaustive exploration of every random answer: every sampled walk of length <=3 (each np.random.choice answer with p>0 is a branch) and the full coin tree of simplicial_contagion (every comparison of a uniform draw with a rate is a binary choice point) for every initial condition, horizon and rate triple; the SET of trajectories per configuration must equal that of a synchronous reference simulation; transition matrix / stationary state / densities on every connected hypergraph on 0..N-1",
+            "3.C18", "np.random reached only through the module-level name np (seam); uniform draws only compared (CoinFloat raises otherwise)"),
+    "C19": (EX, "E4", "bounded-exhaustive enumeration: contents of the four container types x metadata alphabets x every criteria dictionary x mode x keep_edges against the reference model filtered by definition; SVH tables of every small weighted hypergraph recomputed in exact rational arithmetic (p-values, step-up threshold, validated set)",
+            "3.C19", "scipy binom.sf agrees with the exact tail to 1e-9 relative; mp=True on a deterministic subset, run in the parent process"),
+    "C20": (EX, "E4+E3", "bounded-exhaustive enumeration: s-/node/sub-hypergraph centralities against networkx/scipy on independently built projections (int and string labels, temporal averages); CEC/HEC on every connected uniform hypergraph x every start vector of a finite menu (scripted through the np.random seam), eigen-equations checked with tolerances derived from the stopping rules, relabelling checked with the permuted start vector",
+            "3.C20", "start vectors from a finite menu (alphabet limit); tolerances derived, not tuned"),
 }
 PENDING = {}
 for i in range(1, 21):
